@@ -113,10 +113,11 @@ func c16EGCurve[E elgamal.FiniteCyclicGroupElement[E, S], S algebra.UintLike[S]]
 		c.Emit(fmt.Sprintf("eg-key %s %s", e.name, aHex), "ok:"+e.ptStr(sk.H()))
 		c.Count("eg.key." + e.name)
 		ops := func(path string) egOps[E, S] {
+			var inner egOps[E, S] = pk
 			if path == "sk" {
-				return sk
+				inner = sk
 			}
-			return pk
+			return &egImmut[E, S]{c: c, e: e, path: path, inner: inner} // input-immutability oracle
 		}
 		fresh := func(path string) *egTriple[E, S] {
 			pt, err := elgamal.NewPlaintext[E, S](e.randPoint(r))
@@ -293,6 +294,74 @@ func c16EGCurve[E elgamal.FiniteCyclicGroupElement[E, S], S algebra.UintLike[S]]
 				}
 				t = out
 				emitDec(t.ct, t.pt.Value())
+			}
+		}
+		// aggregation over one batch: variadic operations on sub-slices xs[lo:hi] (hi < len <= cap)
+		// of the same arrays, prefix / sliding window / total, results re-used; the line carries
+		// the values recorded at creation
+		if ki == 0 {
+			batch := 5
+			for _, path := range []string{"sk", "pk"} {
+				o := ops(path)
+				pts := make([]*elgamal.Plaintext[E, S], batch, batch+2)
+				ncs := make([]*elgamal.Nonce[S], batch, batch+2)
+				cts := make([]*elgamal.Ciphertext[E, S], batch, batch+2)
+				type rec struct{ m, r, c1, c2 string }
+				recs := make([]rec, batch)
+				for i := 0; i < batch; i++ {
+					t := fresh([]string{"pk", "sk"}[i%2])
+					pts[i], ncs[i], cts[i] = t.pt, t.nc, t.ct
+					cs := t.ct.Value().Components()
+					recs[i] = rec{e.ptStr(t.pt.Value()), hexNat(e.scBig(t.nc.Value())), e.ptStr(cs[0]), e.ptStr(cs[1])}
+				}
+				emit := func(kind string, a, b, lo, hi int) *egTriple[E, S] {
+					out := &egTriple[E, S]{}
+					res := safely(func() string {
+						var err error
+						if out.ct, err = o.CiphertextOp(cts[a], cts[b], cts[lo:hi]...); err != nil {
+							return c16Err(err)
+						}
+						if out.pt, err = o.PlaintextOp(pts[a], pts[b], pts[lo:hi]...); err != nil {
+							return c16Err(err)
+						}
+						if out.nc, err = o.NonceOp(ncs[a], ncs[b], ncs[lo:hi]...); err != nil {
+							return c16Err(err)
+						}
+						return "ok:" + e.ctStr(out.ct) + "," + e.ptStr(out.pt.Value()) + "," + hexNat(e.scBig(out.nc.Value()))
+					})
+					idx := []int{b}
+					for i := lo; i < hi; i++ {
+						idx = append(idx, i)
+					}
+					ms, rs, c1s, c2s := make([]string, len(idx)), make([]string, len(idx)), make([]string, len(idx)), make([]string, len(idx))
+					for j, i := range idx {
+						ms[j], rs[j], c1s[j], c2s[j] = recs[i].m, recs[i].r, recs[i].c1, recs[i].c2
+					}
+					lhs := fmt.Sprintf("eg-hom %s %s %s op %s %s %s %s %s %s %s %s", path, e.name, aHex, recs[a].m, recs[a].r, recs[a].c1, recs[a].c2,
+						strings.Join(ms, ","), strings.Join(rs, ","), strings.Join(c1s, ","), strings.Join(c2s, ","))
+					c.Emit(lhs, res)
+					c.Count("eg.agg." + kind + "." + e.name)
+					if !strings.HasPrefix(res, "ok:") {
+						c.Violation(fmt.Sprintf("ElGamal aggregation failed on valid inputs: curve=%s path=%s %s => %s", e.name, path, kind, res))
+						return nil
+					}
+					emitDec(out.ct, out.pt.Value())
+					return out
+				}
+				for i := 2; i <= batch; i++ {
+					emit("prefix", 0, 1, 2, i)
+				}
+				for j := 0; j+3 <= batch; j++ {
+					emit("window", j, j+1, j+2, j+3)
+				}
+				emit("suffix", batch-1, batch-2, 1, batch-2)
+				emit("total", 0, 1, 2, batch)
+				for i := 0; i < batch; i++ {
+					cs := cts[i].Value().Components()
+					if e.ptStr(pts[i].Value()) != recs[i].m || hexNat(e.scBig(ncs[i].Value())) != recs[i].r || e.ptStr(cs[0]) != recs[i].c1 || e.ptStr(cs[1]) != recs[i].c2 {
+						c.Violation(fmt.Sprintf("input-mutated ElGamal batch element %d differs from its record after the aggregation sequence curve=%s path=%s", i, e.name, path))
+					}
+				}
 			}
 		}
 	}
